@@ -107,6 +107,24 @@ EndsFrom(P, st, c, k) ==
   ELSE UNION {EndsFrom(P, st, j, k) : j \in ArgMaxB(st, st.T.kids[c])}
 PullEnds(P, st) == EndsFrom(P, st, 1, Epoch(st.iter))
 
+\* VHCT, independent of the thresholds the library reports: the descent under *any* per-cell thresholds that agree with
+\* the published formula to the tolerance of TauVClose.  A cell surely stops below the band, surely continues above it.
+TauBand(P, st, c, k) ==
+  LET est == TauVEst(P, st, c, k)  X == TauVX(P, st, c)
+      d == 2 + est \div 64 + (2 * est) \div MaxI(X, 1)
+  IN IF est >= 1000000 THEN <<500000, 1900000000>> ELSE <<MaxI(est - d, 0), est + d>>
+StopsBand(P, st, c, k) ==      \* subset of {TRUE, FALSE}
+  IF IsLeaf(st.T, c) THEN {TRUE}
+  ELSE IF c = 1 THEN {FALSE}
+  ELSE LET b == TauBand(P, st, c, k) IN
+       (IF st.cnt[c] < b[2] THEN {TRUE} ELSE {}) \cup (IF st.cnt[c] >= b[1] THEN {FALSE} ELSE {})
+RECURSIVE EndsBandFrom(_, _, _, _)
+EndsBandFrom(P, st, c, k) ==
+  LET sb == StopsBand(P, st, c, k) IN
+  (IF TRUE \in sb THEN {c} ELSE {}) \cup
+  (IF FALSE \in sb THEN UNION {EndsBandFrom(P, st, j, k) : j \in ArgMaxB(st, st.T.kids[c])} ELSE {})
+PullEndsBand(P, st) == EndsBandFrom(P, st, 1, Epoch(st.iter))
+
 \* the cells on the way from the root to c (root first)
 RECURSIVE PathTo(_, _)
 PathTo(T, c) == IF c = 1 THEN <<1>> ELSE Append(PathTo(T, T.parent[c]), c)
